@@ -411,6 +411,7 @@ theorem stored_output_decodes (fuel : Nat) (s : State) (m0 : List Nat) (w0 : Nat
     R.code = NEEDS_MORE_INPUT ∧
     ∃ st p r, finish R.st cap = ok ⟨st, SUCCESS, 0, p⟩ ∧
       readWbits (bytesToBits (R.emitted ++ p)) = some (w0, lg0, r) ∧
+      bytesToBits (R.emitted ++ p) = wb0 ++ r ∧
       decodeFraming (bl0.length + bls.flatten.length + 1) wb0.length r
         = some (bl0 ++ bls.flatten ++ [MetaBlock.lastEmpty]) := by
   have h4 : 4 ≤ need (m0.headD 0) := by unfold need; split <;> omega
@@ -440,7 +441,7 @@ theorem stored_output_decodes (fuel : Nat) (s : State) (m0 : List Nat) (w0 : Nat
     have hO : bytesToBits (R.emitted ++ p) = wb0 ++ (F0 ++ (laterBits (14 - k0) ds ++
         ([true, true] ++ zeros (14 - lastN (14 - k0) ds)))) := by
       rw [hbits, hdata0]; simp [List.append_assoc, zeros]
-    refine ⟨hc, st, p, _, hf, by rw [hO]; exact h0.wread _, ?_⟩
+    refine ⟨hc, st, p, _, hf, by rw [hO]; exact h0.wread _, hO, ?_⟩
     have f0 := h0.frames wb0.length (laterBits (14 - k0) ds ++ ([true, true] ++ zeros (14 - lastN (14 - k0) ds))) rfl
     have fall := framesTo_append _ _ _ _ _ _ _ _ f0 g1
     have hlast := rm_last (wb0.length + F0.length + (laterBits (14 - k0) ds).length) []
